@@ -98,6 +98,26 @@ def desugar(loc, relfile, fn_paths, rules, _pass=0, optional=()):
                     rewrites.append((a, b, new))
                     records.append({"fn": fp, "rule": "D63 V.retain(|&p| C);  =>  { filtering loop over V into a fresh vector; V = that vector }   (items are Copy, C only reads)",
                                     "original": src[a:b], "rewritten": new})
+            if "D68" in rules:
+                # X.iter().filter(|v| C).for_each(|w| { B })  =>  index loop: if C { B }   (v: &&T, w: &T; B a block without return/break/continue)
+                seg = src[it["start"]:it["end"]]
+                m = re.search(r"([a-z_][a-z_0-9\.]*?)\s*\.iter\(\)\s*\.filter\(\|([a-z_][a-z_0-9]*)\| ([^\n]+)\)\s*\.for_each\(\|([a-z_][a-z_0-9]*)\|\s*\{", seg)
+                if m:
+                    depth, k = 1, m.end()
+                    while k < len(seg) and depth > 0:
+                        depth += {"{": 1, "}": -1}.get(seg[k], 0)
+                        k += 1
+                    body = seg[m.end():k - 1]
+                    tail = re.match(r"\s*\)", seg[k:])
+                    # (a `break` / `continue` inside a closure body can only target a loop inside that body; a `return` would leave the closure)
+                    if tail and not re.search(r"\breturn\b", body):
+                        X, fv, C, bv = m.group(1), m.group(2), m.group(3), m.group(4)
+                        new = (f"{{ let mut pv_i: usize = 0; while pv_i < {X}.len() {{ let pv_item = &{X}[pv_i]; pv_i += 1; "
+                               f"if {{ let {fv} = &pv_item; {C} }} {{ let {bv} = pv_item; {body} }} }} }}")
+                        a0, b0 = it["start"] + m.start(), it["start"] + k + tail.end()
+                        rewrites.append((a0, b0, new))
+                        records.append({"fn": fp, "rule": "D68 X.iter().filter(|v| C).for_each(|w| { B })  =>  { index loop over X: if C { B } }   (v: &&T, w: &T)",
+                                        "original": src[a0:b0], "rewritten": new})
             if "D66" in rules or "D67" in rules:
                 # ranges in parentheses followed by an adaptor: (LO..=HI).filter(|b| C).collect::<Vec<_>>()  /  (LO..HI).find(|b| C)
                 seg = src[it["start"]:it["end"]]
@@ -141,15 +161,20 @@ def desugar(loc, relfile, fn_paths, rules, _pass=0, optional=()):
                 if "D67" in rules:
                     for m in re.finditer(r"\)\s*\.find\(\|([a-z_][a-z_0-9]*)\| ([^\n]+)\)", seg):
                         rb = _range_before(m.start())
-                        if not rb or rb[3]:
+                        if not rb:
                             continue
-                        k, lo, hi, _ = rb
+                        k, lo, hi, incl = rb
                         v, C = m.group(1), m.group(2)
-                        new = (f"{{ let mut pv_f: Option<i32> = None; let pv_hi = {hi}; let mut pv_v = {lo}; while pv_v < pv_hi {{ "
-                               f"if {{ let {v} = &pv_v; {C} }} {{ pv_f = Some(pv_v); break; }} pv_v += 1; }} pv_f }}")
+                        if incl:
+                            # inclusive: the counter is not incremented past HI
+                            new = (f"{{ let mut pv_f: Option<i32> = None; let pv_hi = {hi}; let mut pv_v = {lo}; let mut pv_go = pv_v <= pv_hi; while pv_go {{ "
+                                   f"if {{ let {v} = &pv_v; {C} }} {{ pv_f = Some(pv_v); break; }} if pv_v < pv_hi {{ pv_v += 1; }} else {{ pv_go = false; }} }} pv_f }}")
+                        else:
+                            new = (f"{{ let mut pv_f: Option<i32> = None; let pv_hi = {hi}; let mut pv_v = {lo}; while pv_v < pv_hi {{ "
+                                   f"if {{ let {v} = &pv_v; {C} }} {{ pv_f = Some(pv_v); break; }} pv_v += 1; }} pv_f }}")
                         a0, b0 = it["start"] + k, it["start"] + m.end()
                         rewrites.append((a0, b0, new))
-                        records.append({"fn": fp, "rule": "D67 (LO..HI).find(|b| C)  =>  { search loop over LO..HI: Some(first value for which C holds) or None }",
+                        records.append({"fn": fp, "rule": "D67 (LO..HI).find(|b| C) / (LO..=HI).find(|b| C)  =>  { search loop over the range: Some(first value for which C holds) or None }",
                                         "original": src[a0:b0], "rewritten": new})
             if "D64" in rules:
                 # (E as f64 / 2.0).floor() as i32  =>  pv_half_floor(E)   (E a non-negative i32: exact in f64)
